@@ -98,3 +98,10 @@ impl Display for BandwidthEstimation {
         )
     }
 }
+
+#[cfg(feature = "__verif-hooks")]
+#[allow(missing_docs, unreachable_pub, dead_code, unused_imports, unused_qualifications)]
+pub mod verif {
+    use super::*;
+    include!(concat!(env!("QUINN_VERIF_HOOKS"), "/proto/congestion/bbr/bw_estimation.rs"));
+}
